@@ -28,6 +28,8 @@ class ModuleInfo(object):
         self.src = raw.decode('utf-8')
         self.lines = self.src.split('\n')
         self.tree = ast.parse(self.src, filename=path)
+        from . import canon
+        canon.canonicalize(self.tree)     # one shape for equivalent statement idioms (see canon.py)
         self.funcs = {}      # qualname -> FunctionDef
         self.classes = {}    # name -> ClassDef
         self.parents = {}
